@@ -75,6 +75,17 @@ def make_case(case, ctx):
             crisk.add('shared_subcircuit_update')
         ref0 = RefModel(spec)
         nodes = ref0.node_order
+
+        def newval():
+            # mostly unique O(1) values; sometimes the special values 0.0, negative numbers and small integers
+            r_ = rnd.random()
+            if r_ < 0.14:
+                return 0.0
+            if r_ < 0.22:
+                return -vals.new()
+            if r_ < 0.28:
+                return float(rnd.choice([1, 2, 3]))
+            return vals.new()
         # overrides
         updates, node_values, edge_updates = [], {}, []
         kinds = []
@@ -98,9 +109,9 @@ def make_case(case, ctx):
                     if any((t, op, v) not in ref0.kind for t in targets) or path in node_values:
                         continue
                     if len(targets) > 1 and rnd.random() < 0.5:
-                        node_values[path] = [vals.new() for _ in targets]
+                        node_values[path] = [newval() for _ in targets]
                     else:
-                        node_values[path] = vals.new()
+                        node_values[path] = newval()
                     # nodes that share the NodeTemplate object with a target but are not addressed
                     tt = {t: dict(ref0_nt(spec))[t] for t in targets}
                     others = [m for m, nt in ref0_nt(spec) if m not in targets and nt in tt.values()]
@@ -110,10 +121,10 @@ def make_case(case, ctx):
                 else:
                     targets = [t for t in match_nodes(nodes, parts) if (t, op, v) in ref0.kind]
                     if kind == 'array' and len(targets) > 1:
-                        updates.append([path, [vals.new() for _ in targets]])
+                        updates.append([path, [newval() for _ in targets]])
                         kinds.append('update_var_array')
                     else:
-                        updates.append([path, vals.new()])
+                        updates.append([path, newval()])
                         kinds.append('update_var_scalar')
             elif kind == 'edge' and spec['circ'].get('edges'):
                 e = rnd.choice(spec['circ']['edges'])
